@@ -7,7 +7,7 @@ import torch
 
 import evalc
 import export
-from cases import close
+from cases import close, close_sem
 
 
 def compiled_pair(ctx, derived, *operands):
@@ -35,7 +35,7 @@ def oracle_multiply(sc1, sc2, sp, ys, sem, fold, opt, ctx=None):
     a = eval_on(ctx, sc1, ys, sem, w)
     b = eval_on(ctx, sc2, ys, sem, w)
     exp = kron_outputs(a, b)
-    return close(got, exp, rtol=1e-6, atol=1e-8), {"observed": got.tolist(), "expected": exp.tolist()}
+    return close_sem(got, exp, sem, rtol=1e-6, atol=1e-8), {"observed": got.tolist(), "expected": exp.tolist()}
 
 
 def oracle_evidence(sc, se, obs, ys, sem, fold, opt, ctx=None):
@@ -43,7 +43,7 @@ def oracle_evidence(sc, se, obs, ys, sem, fold, opt, ctx=None):
     w = evalc.width_of(sc)
     got = eval_on(ctx, se, ys, sem, w)
     exp = eval_on(ctx, sc, [{**y, **obs} for y in ys], sem, w)
-    return close(got, exp), {"observed": got.tolist(), "expected": exp.tolist()}
+    return close_sem(got, exp, sem), {"observed": got.tolist(), "expected": exp.tolist()}
 
 
 def oracle_concat(scs, scat, ys, sem, fold, opt, ctx=None):
@@ -51,7 +51,7 @@ def oracle_concat(scs, scat, ys, sem, fold, opt, ctx=None):
     w = max(evalc.width_of(s) for s in scs)
     got = eval_on(ctx, scat, ys, sem, w)
     exp = np.concatenate([eval_on(ctx, s, ys, sem, w) for s in scs], axis=1)
-    return close(got, exp), {"observed": got.tolist(), "expected": exp.tolist()}
+    return close_sem(got, exp, sem), {"observed": got.tolist(), "expected": exp.tolist()}
 
 
 def oracle_conjugate(sc, scj, ys, sem, fold, opt, ctx=None):
@@ -59,7 +59,7 @@ def oracle_conjugate(sc, scj, ys, sem, fold, opt, ctx=None):
     w = evalc.width_of(sc)
     got = eval_on(ctx, scj, ys, sem, w)
     exp = np.conj(eval_on(ctx, sc, ys, sem, w))
-    return close(got, exp), {"observed": got.tolist(), "expected": exp.tolist()}
+    return close_sem(got, exp, sem), {"observed": got.tolist(), "expected": exp.tolist()}
 
 
 def oracle_differentiate(sc, sd, order, ys, fold, opt):
